@@ -31,8 +31,10 @@ def gen_prog(rng, depth):
         r = rng.random()
         if depth <= 0 or r < 0.35:
             out.append(rng.choice(["O", "O", "T", "O", "R", "B", "X"]) if rng.random() < 0.35 else rng.choice(["O", "T"]))
-        elif r < 0.8:
+        elif r < 0.72:
             out.append(("F", rng.randint(0, 4), gen_prog(rng, depth - 1)))
+        elif r < 0.8:
+            out.append(("G", gen_prog(rng, depth - 1)))
         else:
             out.append(("Y", gen_prog(rng, depth - 1), gen_prog(rng, depth - 1)))
     return out
@@ -45,6 +47,8 @@ def prog_tok(l):
             parts.append(p)
         elif p[0] == "F":
             parts.append("F %d %d %s" % (p[1], len(p[2]), prog_tok(p[2])))
+        elif p[0] == "G":
+            parts.append("G %d %s" % (len(p[1]), prog_tok(p[1])))
         else:
             parts.append("Y %d %s %d %s" % (len(p[1]), prog_tok(p[1]), len(p[2]), prog_tok(p[2])))
     return " ".join(parts)
@@ -56,6 +60,8 @@ def has_break_outside_loop(l, in_loop=False):
             return True
         if isinstance(p, tuple):
             if p[0] == "F" and has_break_outside_loop(p[2], True):
+                return True
+            if p[0] == "G" and has_break_outside_loop(p[1], True):
                 return True
             if p[0] == "Y" and (has_break_outside_loop(p[1], in_loop) or has_break_outside_loop(p[2], in_loop)):
                 return True
@@ -84,6 +90,11 @@ def prog_template(l, rng, ind=0, counter=[0]):
             lines.append("%s%% for x%d in %s:" % (pad, counter[0], rng.choice(ITER) % p[1]))
             lines += prog_template(p[2], rng, ind + 1, counter)
             lines.append("%s%% endfor" % pad)
+        elif p[0] == "G":
+            counter[0] += 1
+            lines.append("%s%% for x%d in boom():" % (pad, counter[0]))
+            lines += prog_template(p[1], rng, ind + 1, counter)
+            lines.append("%s%% endfor" % pad)
         else:
             lines.append("%s%% try:" % pad)
             lines += prog_template(p[1], rng, ind + 1, counter)
@@ -105,7 +116,7 @@ def reference_trace(l):
         if p == "O":
             return True
         if isinstance(p, tuple):
-            return any(reads(q) for q in (p[2] if p[0] == "F" else p[1] + p[2]))
+            return any(reads(q) for q in (p[2] if p[0] == "F" else p[1] if p[0] == "G" else p[1] + p[2]))
         return False
 
     class Raised(Exception):
@@ -127,6 +138,8 @@ def reference_trace(l):
                 raise Break()
             elif p == "X":
                 raise Stop()
+            elif isinstance(p, tuple) and p[0] == "G":
+                raise Raised()
             elif isinstance(p, tuple) and p[0] == "F":
                 managed = reads(p)
                 for i in range(p[1]):
@@ -197,7 +210,7 @@ def ctl_lines(stmts, rng, wc=[0]):
         elif k == "expr":
             out.append("${'e%d'}" % s[1])
         elif k == "code":
-            m = " " * rng.choice([0, 2, 4, 8])
+            m = rng.choice(["", "  ", "    ", "        ", "\t", "\t\t"])
             out.append("<%%\n%sv = 'c%d'\n%sif v:\n%s    w = v\n%%>\n${w}" % (m, s[1], m, m))
         elif k == "comment":
             out.append(pad + "## a comment")
